@@ -48,17 +48,50 @@ def kernel_case(cid: str, M: list, inst, algo: str, x0: list, moves: list) -> di
             "x0": list(x0), "moves": [list(p) for p in moves]}
 
 
-def solve_case(cid: str, M: list, inst, algo: str, seed: int, budget: int, raw: bool = False) -> dict:
+def _log_stub():
+    """A StubProcess that is a moptipy Process and has a log: the FEA configured with do_log_h = True hands its
+    frequency table to `add_log_section` at the end of the run."""
+    from moptipy.api.process import Process
+
+    class LogStub(ts.StubProcess, Process):
+        def has_log(self) -> bool:
+            return True
+
+        def add_log_section(self, title, text) -> None:
+            self.sections = getattr(self, "sections", []) + [(str(title), str(text))]
+    return LogStub
+
+
+def parse_h(text: str) -> list:
+    """moptipy's h_to_str: y;count;y;count...; an omitted y is the previous one + 1.  Returns the logged y values."""
+    parts = text.strip().split(";")
+    ys, prev = [], None
+    for k in range(0, len(parts) - 1, 2):
+        y = int(parts[k]) if parts[k].strip() else prev + 1
+        ys.append(y)
+        prev = y
+    return ys
+
+
+def solve_case(cid: str, M: list, inst, algo: str, seed: int, budget: int, raw: bool = False,
+               log_h: bool = False) -> dict:
     m = ts.mods()
-    proc = ts.StubProcess(inst, seed, budget, raw)
-    alg = m["EA"](inst) if algo == "ea" else m["FEA"](inst)
+    proc = (_log_stub() if log_h else ts.StubProcess)(inst, seed, budget, raw)
+    alg = m["EA"](inst) if algo == "ea" else (m["FEA"](inst, True) if log_h else m["FEA"](inst))
     clause = None
     try:
         alg.solve(proc)
     except IndexError:
         clause = "index-error-in-solve"
+    hidx = []
+    if log_h and clause is None:
+        secs = getattr(proc, "sections", [])
+        if len(secs) != 1:
+            raise core.MachineryError(f"expected one logged H section, got {len(secs)}")
+        # the logged table: every entry it names is an entry the run addressed
+        hidx = [small(v) for v in parse_h(secs[0][1])]
     rec = {"id": cid, "n": len(M), "M": M, "algo": algo, "ub": 0 if raw else small(int(inst.tour_length_upper_bound)),
-           "steps": proc.trace, "hidx": [], "seed": seed, "budget": budget}
+           "steps": proc.trace, "hidx": hidx, "seed": seed, "budget": budget, "log_h": 1 if log_h else 0}
     if clause:
         rec["_index_error"] = True
     return rec
@@ -118,6 +151,13 @@ def run(prop: str, tier: str, seed: int) -> int:
         algo = rng.choice(["ea", "fea"])
         rec = solve_case(f"{fam}-{k}", M, inst, algo, rng.randrange(1 << 30), rng.choice([5, 50, 400, 2000]))
         cases.append(rec)
+        if algo == "fea" and k % 3 == 0:
+            # the same run with the frequency table logged at the end (do_log_h = True): same trace, table in range
+            rec2 = solve_case(f"{fam}-{k}-logh", M, inst, algo, rec["seed"], rec["budget"], log_h=True)
+            if not rec2.get("_index_error") and rec2["steps"] != rec["steps"]:
+                rep.violations.append(core.Verdict(rec2["id"], "logging-the-frequency-table-changes-the-run", rec2))
+            cases.append(rec2)
+            rep.family("solve-with-logged-frequency-table", len(rec2["steps"]), len(rec2["steps"]))
         rep.family(f"solve-{fam}", len(rec["steps"]), len(rec["steps"]))
         rep.nontrivial += len(rec["steps"])
     # many cities: index and tour storage beyond the 8-bit ranges (127/128, 255/256), small distances so that
@@ -188,7 +228,8 @@ def replay(prop: str, case: dict) -> dict:
     if "moves" in case:
         rec = kernel_case("replay", case["M"], inst, case["algo"], case["x0"], [tuple(p) for p in case["moves"]])
     else:
-        rec = solve_case("replay", case["M"], inst, case["algo"], case["seed"], case["budget"])
+        rec = solve_case("replay", case["M"], inst, case["algo"], case["seed"], case["budget"],
+                         log_h=bool(case.get("log_h")))
     if rec.pop("_index_error", False):
         return {"clause": "index-error:frequency-table-or-tour", "case": rec}
     vs = core.validate("tsp/Trace_TSP", [rec], cfg_text=_trace_cfg())
